@@ -33,6 +33,7 @@ type TierSpec struct {
 	CrossCheck  bool   `json:"cross_check"`
 	Parallel    int    `json:"parallel"`
 	Lazy        bool   `json:"lazy"`
+	BranchSliceHops int `json:"branch_slice_hops"`
 	ExploreSeconds int `json:"explore_seconds"`
 }
 
@@ -117,6 +118,7 @@ func RunCheck(propFile, tier string, only string, verbose bool) int {
 	replays := 0
 	violations := 0
 	var violationLines, knownLines []string
+	selftestReplays, selftestAgree := 0, 0
 	solverStats := map[string]*SolverStat{}
 	var samples []interface{}
 
@@ -203,7 +205,7 @@ func RunCheck(propFile, tier string, only string, verbose bool) int {
 			go func() {
 				defer wg.Done()
 				defer func() { <-sem }()
-				res[i] = RunHarness(l, fn, HarnessConfig{Unwind: ts.Unwind, BranchTimeoutMs: ts.BranchMs, InitPkgs: g.Init, Merge: true, Tier: tier, Lazy: ts.Lazy, ExploreSeconds: exploreBudget(ts, tier)})
+				res[i] = RunHarness(l, fn, HarnessConfig{Unwind: ts.Unwind, BranchTimeoutMs: ts.BranchMs, InitPkgs: g.Init, Merge: true, Tier: tier, Lazy: ts.Lazy, BranchSliceHops: ts.BranchSliceHops, ExploreSeconds: exploreBudget(ts, tier)})
 				if verbose {
 					r := res[i]
 					fmt.Printf("explored %s: paths=%d obligations=%d errors=%d (%.1fs, %d branch queries %.1fs)\n", r.Name, r.Paths, len(r.Obligations), len(r.Errors), r.Secs, r.BranchQueries, r.BranchSecs)
@@ -258,6 +260,47 @@ func RunCheck(propFile, tier string, only string, verbose bool) int {
 			solverStats[n].Errors += s.Errors
 		}
 		allObs = append(allObs, groupObs...)
+
+		// translator validation: one concrete reachability model per harness is run natively; the native run must
+		// not fail any assertion that the symbolic run discharged for all inputs
+		if os.Getenv("VERIF_NO_SELFTEST") == "" {
+			var rp *replayer
+			doneH := map[string]bool{}
+			for _, ob := range groupObs {
+				if ob.Kind != "reach" || ob.Result != Sat || ob.Model == nil || doneH[ob.Harness] {
+					continue
+				}
+				harnessClean := true
+				for _, o2 := range groupObs {
+					if o2.Harness == ob.Harness && o2.Kind == "assert" && o2.Result != Unsat {
+						harnessClean = false
+					}
+				}
+				if !harnessClean {
+					continue
+				}
+				if rp == nil {
+					var err error
+					rp, err = newReplayer(root, g, fns, outDir)
+					if err != nil {
+						inconclusive = append(inconclusive, "translator validation: replay build failed: "+firstLine(err.Error()))
+						break
+					}
+				}
+				doneH[ob.Harness] = true
+				p := filepath.Join(outDir, ob.Harness+".reach.json")
+				writeCex(p, spec.ID, ob)
+				out := rp.run(ob.Harness, p)
+				selftestReplays++
+				switch {
+				case strings.Contains(firstVerifLine(out), "VERIF-ASSERT-FAIL") || strings.Contains(firstVerifLine(out), "VERIF-PANIC"):
+					inconclusive = append(inconclusive, fmt.Sprintf("translator validation: native run of %s on a reachability model disagrees with the symbolic verdict: %s", ob.Harness, firstVerifLine(out)))
+					os.WriteFile(p+".replay.txt", []byte(out), 0o644)
+				default:
+					selftestAgree++
+				}
+			}
+		}
 
 		// replay satisfiable assertion obligations natively
 		var cexObs []*Obligation
@@ -321,6 +364,8 @@ func RunCheck(propFile, tier string, only string, verbose bool) int {
 
 	// summarise obligations
 	nOb, nDis, nTrivial, nUnknown, nReachOK, nReachBad := 0, 0, 0, 0, 0, 0
+	replays += selftestReplays
+	_ = selftestAgree
 	reachOK := map[string]bool{}
 	reachBad := map[string]string{}
 	var recs []obligationRecord
@@ -430,6 +475,8 @@ func RunCheck(propFile, tier string, only string, verbose bool) int {
 			"states":                        maxInt(totalPaths, 1),
 			"transitions":                   maxInt(totalInstrs, 1),
 			"traces_validated_against_impl": replays,
+			"translator_validation_runs":    selftestReplays,
+			"translator_validation_agree":   selftestAgree,
 			"samples":                       samples,
 			"evaluations":                   len(allObs) + totalBranchQ,
 			"distinct_nontrivial":           nontrivial,
@@ -450,7 +497,8 @@ func RunCheck(propFile, tier string, only string, verbose bool) int {
 			"packages_loaded":               numPkgs,
 			"load_seconds":                  round3(loadSecs),
 			"known_findings_reported":       len(knownLines),
-			"obligation_records":            recs,
+			"obligation_records":            capRecords(recs, 400),
+			"obligation_summary":            summariseRecords(recs),
 			"explanation":                   "bounded symbolic execution of the repository's go/ssa by gosym; every assertion reached becomes an SMT query (path condition AND definitions AND NOT goal) decided by a z3 4.8.12 / z3 5.1.0 / cvc5 1.0 portfolio; unsat = holds for all inputs within the stated bounds; sat models are replayed natively before being reported",
 		},
 	}
@@ -651,13 +699,27 @@ func newReplayer(root string, g *GroupSpec, fns interface{}, outDir string) (*re
 	return &replayer{bin: bin, dir: g.PkgDir}, nil
 }
 
-// replay runs the harness natively on the counterexample; it reports whether the same assertion fails.
-func (r *replayer) replay(ob *Obligation, cexPath string) (bool, string) {
+func (r *replayer) run(harness, cexPath string) string {
 	cmd := exec.Command(r.bin, "-test.run", "^TestVerifReplay$", "-test.v", "-test.timeout", "120s")
 	cmd.Dir = r.dir
-	cmd.Env = append(cleanEnv(), "VERIF_CEX="+cexPath, "VERIF_HARNESS="+ob.Harness)
+	cmd.Env = append(cleanEnv(), "VERIF_CEX="+cexPath, "VERIF_HARNESS="+harness)
 	out, _ := cmd.CombinedOutput()
-	s := string(out)
+	return string(out)
+}
+
+func firstVerifLine(out string) string {
+	for _, line := range strings.Split(out, "\n") {
+		line = strings.TrimSpace(line)
+		if strings.HasPrefix(line, "VERIF-ASSERT-FAIL") || strings.HasPrefix(line, "VERIF-PANIC") || strings.HasPrefix(line, "VERIF-ASSUME-FAIL") || strings.HasPrefix(line, "VERIF-DONE") {
+			return line
+		}
+	}
+	return ""
+}
+
+// replay runs the harness natively on the counterexample; it reports whether the same assertion fails.
+func (r *replayer) replay(ob *Obligation, cexPath string) (bool, string) {
+	s := r.run(ob.Harness, cexPath)
 	// the counterexample fixes only the variables of its own query: what happens after the failing assertion
 	// (later assumptions on other variables) is irrelevant, what happens before it is not
 	for _, line := range strings.Split(s, "\n") {
@@ -688,4 +750,47 @@ func exploreBudget(ts TierSpec, tier string) int {
 		return 7200
 	}
 	return 900
+}
+
+// capRecords keeps the evidence file small: at most max individual records (solver-decided ones first).
+func capRecords(recs []obligationRecord, max int) []obligationRecord {
+	if len(recs) <= max {
+		return recs
+	}
+	var out []obligationRecord
+	for _, r := range recs {
+		if r.Solver != "fold" && len(out) < max {
+			out = append(out, r)
+		}
+	}
+	for _, r := range recs {
+		if r.Solver == "fold" && len(out) < max {
+			out = append(out, r)
+		}
+	}
+	return out
+}
+
+// summariseRecords aggregates all obligations per (harness, label, verdict).
+func summariseRecords(recs []obligationRecord) []map[string]interface{} {
+	type key struct{ h, l, v string }
+	cnt := map[key]int{}
+	secs := map[key]float64{}
+	var order []key
+	for _, r := range recs {
+		k := key{r.Harness, r.Label, r.Verdict}
+		if _, ok := cnt[k]; !ok {
+			order = append(order, k)
+		}
+		cnt[k]++
+		secs[k] += r.Seconds
+	}
+	var out []map[string]interface{}
+	for _, k := range order {
+		if len(out) >= 600 {
+			break
+		}
+		out = append(out, map[string]interface{}{"harness": k.h, "label": k.l, "verdict": k.v, "count": cnt[k], "solver_seconds": round3(secs[k])})
+	}
+	return out
 }
